@@ -293,8 +293,8 @@ where
     let mut output_arg = None;
     let mut input_arg = None;
     let mut double_dash_input = false;
-    let mut dep_target = None;
-    let mut dep_flag = OsString::from("-MT");
+    let mut dep_targets: Vec<(OsString, OsString)> = vec![];
+    let dep_flag = OsString::from("-MT");
     let mut common_args = vec![];
     let mut arch_args = vec![];
     let mut unhashed_args = vec![];
@@ -396,8 +396,12 @@ where
                 }
             }
             Some(DepTarget(s)) => {
-                dep_flag = OsString::from(arg.flag_str().expect("Dep target flag expected"));
-                dep_target = Some(s.clone());
+                // -MT and -MQ may be given several times: every target ends up in the
+                // dependency file.
+                dep_targets.push((
+                    OsString::from(arg.flag_str().expect("Dep target flag expected")),
+                    s.clone(),
+                ));
             }
             Some(DepArgumentPath(_)) => {
                 need_explicit_dep_argument_path = DepArgumentRequirePath::Provided;
@@ -652,12 +656,16 @@ where
         profile_generate = true;
     }
     if need_explicit_dep_target {
-        dependency_args.push(dep_flag);
-        // The compilers quote their default target for Make ("as if it were given
-        // with -MQ"); the target synthesized here is passed with -MT, which does not.
-        dependency_args.push(
-            dep_target.unwrap_or_else(|| quote_for_make(output.clone().into_os_string())),
-        );
+        if dep_targets.is_empty() {
+            // The compilers quote their default target for Make ("as if it were given
+            // with -MQ"); the target synthesized here is passed with -MT, which does not.
+            dependency_args.push(dep_flag);
+            dependency_args.push(quote_for_make(output.clone().into_os_string()));
+        }
+        for (flag, target) in dep_targets {
+            dependency_args.push(flag);
+            dependency_args.push(target);
+        }
     }
     if let DepArgumentRequirePath::Missing = need_explicit_dep_argument_path {
         dependency_args.push(OsString::from("-MF"));
